@@ -138,7 +138,37 @@ def run_solve(case):
         real["elapsed_sign"] = -1 if e < 0 else (0 if e == 0 else 1)
         real["elapsed"] = None
     fake = one_run(case["clock"])
-    return {"real": real, "fake": fake}
+    out = {"real": real, "fake": fake}
+    if case["seed"] % 5 == 0:
+        out["nested"] = nested_call(case)
+    return out
+
+
+def nested_call(case):
+    """A solver whose solve() obtains its schedule by CALLING another solver (a best-of-rules portfolio): the
+    schedule it returns through BaseSolver.__call__ must carry ITS class name and ITS elapsed time."""
+    import time as _time
+
+    from job_shop_lib.dispatching.rules import DispatchingRuleSolver
+
+    class PortfolioSolver(DispatchingRuleSolver):
+        def solve(self, instance, dispatcher=None):
+            best = None
+            for rule in ("most_work_remaining", "shortest_processing_time"):
+                candidate = DispatchingRuleSolver(dispatching_rule=rule)(instance)
+                if best is None or candidate.makespan() < best.makespan():
+                    best = candidate
+            _time.sleep(0.002)
+            return best
+
+    try:
+        schedule = PortfolioSolver()(common.build_instance(case["spec"]))
+    except Exception as e:  # pylint: disable=broad-except
+        return {"exn": exn(e)}
+    inner_elapsed = 0.0015   # (the 2 ms sleep, with a margin for clock granularity)
+    return {"exn": 0, "solved_by_ok": int(schedule.metadata.get("solved_by") == "PortfolioSolver"),
+            "elapsed_ok": int(isinstance(schedule.metadata.get("elapsed_time"), float)
+                              and schedule.metadata["elapsed_time"] >= inner_elapsed)}
 
 
 # --------------------------------------------------------------------------- session
@@ -498,6 +528,17 @@ class C04(Check):
             if real["solved_by"] != real["class"] or real["solved_by"] != call[3]:
                 fails.append(Failure("oracle", "metadata:solved_by", "metadata['solved_by'] is not the solver's class name",
                                      expected=call[3], observed=real["solved_by"]))
+        nested = obs.get("nested")
+        if nested and nested["exn"] == 0 and real["exn"] == 0:
+            self.note("nested_solver_calls")
+            if not nested["solved_by_ok"]:
+                fails.append(Failure("oracle", "metadata:solved_by",
+                                     "a solver whose solve() calls another solver: the schedule returned by its "
+                                     "__call__ does not carry its own class name in metadata['solved_by']"))
+            if not nested["elapsed_ok"]:
+                fails.append(Failure("oracle", "metadata:elapsed",
+                                     "a solver whose solve() calls another solver and then works 2 ms more: its "
+                                     "__call__ did not record its own elapsed_time (>= 2 ms)"))
         if fake["exn"] == 0:
             t0, t1 = case["clock"]
             want = call[1][0] if call[1] else None
